@@ -748,3 +748,495 @@ Proof.
       * exfalso. destruct (NS c Hc E) as [S _]. destruct (static_q _ _ S) as [_ [_ [_ [_ [_ [_ [Eg _]]]]]]].
         rewrite Eg in Hg'. apply Hg'. apply Z; assumption.
 Qed.
+
+(* ---------- static fields through the loop *)
+Lemma Forall2_static_refl (l : list Item) : Forall2 static_eq l l.
+Proof. induction l; constructor; auto using static_refl. Qed.
+Lemma Forall2_static_trans (a b c : list Item) : Forall2 static_eq a b -> Forall2 static_eq b c -> Forall2 static_eq a c.
+Proof.
+  intro H. revert c. induction H; intros c0 H2; inversion H2; subst; constructor.
+  - eapply static_trans; eassumption.
+  - apply IHForall2. assumption.
+Qed.
+Lemma Forall2_static_map (f : Item -> Item) l : (forall c, static_eq c (f c)) -> Forall2 static_eq l (map f l).
+Proof. intro H. induction l; simpl; constructor; auto. Qed.
+Lemma on_unfrozen_static f : (forall c, static_eq c (f c)) -> forall c, static_eq c (on_unfrozen f c).
+Proof. intros H c. unfold on_unfrozen. destruct (fi_frozen c); [apply static_refl | apply H]. Qed.
+
+Lemma loop_body_static k items : Forall2 static_eq items (loop_body k items).
+Proof.
+  rewrite loop_body_unfold. cbv zeta.
+  eapply Forall2_static_trans; [|apply Forall2_static_map; apply on_unfrozen_static].
+  - eapply Forall2_static_trans; [|apply Forall2_static_map; apply on_unfrozen_static].
+    + unfold distribute.
+      repeat match goal with |- context [if ?b then _ else _] => destruct b end;
+        try apply Forall2_static_refl; apply Forall2_static_map; apply on_unfrozen_static; intro c; repeat split.
+    + intro c. repeat split.
+  - intro c. unfold freeze_by_violation. repeat match goal with |- context [if ?b then _ else _] => destruct b end; repeat split.
+Qed.
+
+Lemma cnt_pos (l : list Item) : forallb fi_frozen l = false -> (0 < cnt l)%nat.
+Proof.
+  unfold cnt. induction l; simpl; [discriminate|]. intro H. apply andb_false_iff in H.
+  unfold unfrozen at 1. destruct (fi_frozen a); simpl; [|lia]. destruct H; [discriminate|auto].
+Qed.
+
+Lemma flex_loop_done fuel k (items : list Item) : forallb fi_frozen items = true -> flex_loop (S fuel) k items = Some items.
+Proof. intro H. simpl. rewrite H. reflexivity. Qed.
+
+Lemma flex_loop_growing k M gaps : GCtx k M gaps -> forall fuel items, InvG M gaps items -> (cnt items < fuel)%nat ->
+  exists res, flex_loop fuel k items = Some res /\ PostG M gaps res /\ Forall2 static_eq items res.
+Proof.
+  intros K fuel. induction fuel as [|f IH]; intros items I Hc; [lia|].
+  destruct (forallb fi_frozen items) eqn:E.
+  - exists items. split; [apply flex_loop_done; assumption|]. split; [|apply Forall2_static_refl].
+    apply invG_all_frozen; [assumption|]. apply forallb_frozen_true. assumption.
+  - pose proof (cnt_pos _ E) as Cp. simpl. rewrite E.
+    destruct (growing_body k M gaps items K I E) as [P | [I' Hlt]].
+    + destruct f as [|f']; [lia|]. exists (loop_body k items).
+      split; [|split; [assumption | apply loop_body_static]].
+      apply flex_loop_done. apply forallb_forall. intros c Hin. apply (pg_frozen _ _ _ P c Hin).
+    + destruct (IH (loop_body k items) I') as [res [R1 [R2 R3]]]; [lia|].
+      exists res. split; [assumption|]. split; [assumption|].
+      exact (Forall2_static_trans _ _ _ (loop_body_static k items) R3).
+Qed.
+
+(* ================= shrinking ================= *)
+Definition qw (c : Item) : Q := qib c * qs c.     (* scaled flex shrink factor *)
+Definition sprem (c : Item) : Prop :=
+  0 <= qs c /\ (qs c == 0 \/ 1 <= qs c) /\ 0 <= qib c /\ qh c == qcl c (qb c).
+Definition DnT (c : Item) : Q :=
+  if fi_frozen c then qot c else if Qeq_bool (qw c) 0 then qh c + qm c else effmin (qmin c) + qm c.
+Definition at_min (c : Item) : Prop := qt c == effmin (qmin c).
+
+Record InvS (M gaps : Q) (items : list Item) : Prop := {
+  is_wf : forall c, In c items -> item_fin c /\ sprem c;
+  is_unf : forall c, In c items -> fi_frozen c = false -> qh c <= qb c /\ (qw c == 0 -> qt c == qh c);
+  is_fro : forall c, In c items -> fi_frozen c = true -> qot c == qt c + qm c;
+  is_hi : M < gaps + qsum LoT items;
+  is_dn : (forall c, In c items -> fi_frozen c = true -> ~ qw c == 0 -> at_min c) \/ gaps + qsum DnT items < M
+}.
+
+Record PostS (M gaps : Q) (res : list Item) : Prop := {
+  ps_frozen : forall c, In c res -> fi_frozen c = true;
+  ps_fin : forall c, In c res -> item_fin c;
+  ps_outer : forall c, In c res -> qot c == qt c + qm c;
+  ps_law : gaps + qsum qot res == M \/ (forall c, In c res -> ~ qw c == 0 -> at_min c)
+}.
+
+Lemma sprem_static c c' : static_eq c c' -> sprem c -> sprem c'.
+Proof.
+  intros S P. destruct (static_q c c' S) as [E1 [E2 [E3 [E4 [E5 [E6 [E7 [E8 E9]]]]]]]].
+  unfold sprem, qcl in *. rewrite E1, E2, E3, E5, E6, E8. exact P.
+Qed.
+Lemma qw_static c c' : static_eq c c' -> qw c' = qw c.
+Proof. intro S. destruct (static_q c c' S) as [_ [E2 [_ [_ [_ [_ [_ [E8 _]]]]]]]]. unfold qw. rewrite E2, E8. reflexivity. Qed.
+
+Lemma invS_all_frozen M gaps items : InvS M gaps items -> (forall c, In c items -> fi_frozen c = true) ->
+  PostS M gaps items.
+Proof.
+  intros I Hf. constructor; auto.
+  - intros c Hc. apply (is_wf _ _ _ I c Hc).
+  - intros c Hc. apply (is_fro _ _ _ I c Hc (Hf c Hc)).
+  - right. destruct (is_dn _ _ _ I) as [L | U].
+    + intros c Hc. apply L; auto.
+    + exfalso. pose proof (is_hi _ _ _ I) as L.
+      assert (E : qsum DnT items == qsum LoT items).
+      { apply qsum_ext. intros c Hc. unfold DnT, LoT. rewrite (Hf c Hc). reflexivity. }
+      lra.
+Qed.
+
+Section ShrinkStep.
+  Variables (M gaps V : Q) (items : list Item) (step : Item -> Item) (T : Item -> Q).
+  Hypothesis Inv : InvS M gaps items.
+  Hypothesis HT1 : forall c, In c items -> fi_frozen c = false -> T c <= qb c.
+  Hypothesis HT2 : forall c, In c items -> fi_frozen c = false -> qw c == 0 -> T c == qb c.
+  Hypothesis HS : gaps + qsum (fun c => if fi_frozen c then qot c else T c + qm c) items == M.
+  Hypothesis HV : V == qsum (fun c => if fi_frozen c then 0 else qcl c (T c) - T c) items.
+  Hypothesis Hfz : forall c, In c items -> fi_frozen c = true -> step c = c.
+  Hypothesis Hun : forall c, In c items -> fi_frozen c = false ->
+    static_eq c (step c) /\ item_fin (step c) /\ qt (step c) == qcl c (T c) /\ qot (step c) == qcl c (T c) + qm c /\
+    (0 < V -> (fi_frozen (step c) = true <-> 0 < qcl c (T c) - T c)) /\
+    (V < 0 -> (fi_frozen (step c) = true <-> qcl c (T c) - T c < 0)) /\
+    (V == 0 -> fi_frozen (step c) = true).
+
+  Let MidT (c : Item) : Q := if fi_frozen c then qot c else qcl c (T c) + qm c.
+
+  Lemma s_mid : gaps + qsum MidT items == M + V.
+  Proof.
+    assert (E : qsum MidT items ==
+                qsum (fun c => if fi_frozen c then qot c else T c + qm c) items +
+                qsum (fun c => if fi_frozen c then 0 else qcl c (T c) - T c) items).
+    { rewrite <- qsum_add. apply qsum_ext. intros c _. unfold MidT. destruct (fi_frozen c); lra. }
+    rewrite E, HV. lra.
+  Qed.
+
+  Lemma s_unf_facts c : In c items -> fi_frozen c = false ->
+    qh c == qcl c (qb c) /\ qh c <= qb c /\ qcl c (T c) <= qh c /\ (qw c == 0 -> qcl c (T c) == qh c).
+  Proof.
+    intros Hc Hf. destruct (is_wf _ _ _ Inv c Hc) as [_ [_ [_ [_ P]]]]. destruct (is_unf _ _ _ Inv c Hc Hf) as [B _].
+    split; [assumption|]. split; [assumption|]. split.
+    - rewrite P. apply qclamp_mono. apply HT1; assumption.
+    - intro G. rewrite P. apply qclamp_ext. apply HT2; assumption.
+  Qed.
+
+  Lemma s_wf' : forall c', In c' (map step items) -> item_fin c' /\ sprem c'.
+  Proof.
+    intros c' Hc'. apply in_map_iff in Hc'. destruct Hc' as [c [<- Hc]].
+    destruct (is_wf _ _ _ Inv c Hc) as [F P].
+    destruct (fi_frozen c) eqn:E.
+    - rewrite (Hfz c Hc E). auto.
+    - destruct (Hun c Hc E) as [S [F' _]]. split; [assumption|]. eapply sprem_static; eassumption.
+  Qed.
+
+  Lemma s_fro' : forall c', In c' (map step items) -> fi_frozen c' = true -> qot c' == qt c' + qm c'.
+  Proof.
+    intros c' Hc' Hf'. apply in_map_iff in Hc'. destruct Hc' as [c [<- Hc]].
+    destruct (fi_frozen c) eqn:E.
+    - rewrite (Hfz c Hc E) in *. apply (is_fro _ _ _ Inv c Hc E).
+    - destruct (Hun c Hc E) as [S [_ [T1 [O1 _]]]].
+      destruct (static_q _ _ S) as [_ [_ [_ [_ [_ [_ [_ [_ Em]]]]]]]]. rewrite O1, T1, Em. reflexivity.
+  Qed.
+
+  Lemma s_unf' : forall c', In c' (map step items) -> fi_frozen c' = false ->
+    qh c' <= qb c' /\ (qw c' == 0 -> qt c' == qh c').
+  Proof.
+    intros c' Hc' Hf'. apply in_map_iff in Hc'. destruct Hc' as [c [<- Hc]].
+    destruct (fi_frozen c) eqn:E.
+    - rewrite (Hfz c Hc E) in Hf'. congruence.
+    - destruct (Hun c Hc E) as [S [_ [T1 _]]].
+      destruct (static_q _ _ S) as [Eb [_ [Eh _]]].
+      destruct (s_unf_facts c Hc E) as [_ [B [_ Z]]].
+      rewrite Eb, Eh, (qw_static _ _ S). split; [assumption|]. intro G. rewrite T1. apply Z. assumption.
+  Qed.
+
+  Lemma s_exact : V == 0 -> PostS M gaps (map step items).
+  Proof.
+    intro V0.
+    assert (AF : forall c', In c' (map step items) -> fi_frozen c' = true).
+    { intros c' Hc'. apply in_map_iff in Hc'. destruct Hc' as [c [<- Hc]]. destruct (fi_frozen c) eqn:E.
+      - rewrite (Hfz c Hc E). assumption.
+      - apply (Hun c Hc E). assumption. }
+    constructor; auto.
+    - intros c Hc. apply s_wf'. assumption.
+    - intros c Hc. apply s_fro'; auto.
+    - left. rewrite qsum_map.
+      assert (E : qsum (fun x => qot (step x)) items == qsum MidT items).
+      { apply qsum_ext. intros c Hc. unfold MidT. destruct (fi_frozen c) eqn:E.
+        - rewrite (Hfz c Hc E). reflexivity.
+        - apply (Hun c Hc E). }
+      rewrite E. pose proof s_mid. lra.
+  Qed.
+
+  (* total violation positive: min violators freeze (at their floor) *)
+  Lemma s_pos : 0 < V -> InvS M gaps (map step items) /\ (cnt (map step items) < cnt items)%nat.
+  Proof.
+    intro Vp. split.
+    - constructor.
+      + exact s_wf'.
+      + exact s_unf'.
+      + exact s_fro'.
+      + rewrite qsum_map.
+        assert (L : qsum MidT items <= qsum (fun x => LoT (step x)) items).
+        { apply qsum_le. intros c Hc. unfold MidT. destruct (fi_frozen c) eqn:E.
+          - rewrite (Hfz c Hc E). unfold LoT. rewrite E. lra.
+          - destruct (Hun c Hc E) as [S [_ [T1 [O1 _]]]].
+            destruct (static_q _ _ S) as [_ [_ [Eh [_ [_ [_ [_ [_ Em]]]]]]]].
+            destruct (s_unf_facts c Hc E) as [_ [_ [K _]]].
+            unfold LoT. destruct (fi_frozen (step c)); [rewrite O1; lra|]. rewrite Eh, Em. lra. }
+        pose proof s_mid. lra.
+      + destruct (is_dn _ _ _ Inv) as [A | U].
+        * left. intros c' Hc' Hf' Hg'. apply in_map_iff in Hc'. destruct Hc' as [c [<- Hc]].
+          destruct (fi_frozen c) eqn:E.
+          -- rewrite (Hfz c Hc E) in *. apply A; assumption.
+          -- destruct (Hun c Hc E) as [S [_ [T1 [_ [P _]]]]]. specialize (P Vp).
+             assert (L : 0 < qcl c (T c) - T c) by (apply P; assumption).
+             destruct (static_q _ _ S) as [_ [_ [_ [_ [Emn _]]]]].
+             unfold at_min. rewrite T1, Emn. unfold qcl in *. apply qclamp_gt_min. lra.
+        * right. rewrite qsum_map.
+          assert (E : qsum (fun x => DnT (step x)) items == qsum DnT items).
+          { apply qsum_ext. intros c Hc. unfold DnT at 2. destruct (fi_frozen c) eqn:E.
+            - rewrite (Hfz c Hc E). unfold DnT. rewrite E. reflexivity.
+            - destruct (Hun c Hc E) as [S [_ [T1 [O1 [P _]]]]]. specialize (P Vp).
+              destruct (static_q _ _ S) as [_ [_ [Eh [_ [Emn [_ [_ [_ Em]]]]]]]].
+              destruct (s_unf_facts c Hc E) as [Hh [B [K Z]]].
+              unfold DnT. rewrite (qw_static _ _ S). destruct (fi_frozen (step c)) eqn:E'.
+              + assert (L : 0 < qcl c (T c) - T c) by (apply P; reflexivity).
+                destruct (Qeq_bool (qw c) 0) eqn:G0.
+                * apply Qeq_bool_iff in G0. exfalso. pose proof (HT2 c Hc E G0). pose proof (Z G0). lra.
+                * rewrite O1. unfold qcl in *. rewrite (qclamp_gt_min (qmin c) (qmaxo c) (T c)) by lra. reflexivity.
+              + rewrite Eh, Em, Emn. reflexivity. }
+          rewrite E. assumption.
+    - apply cnt_map_lt.
+      + intros c Hc E. rewrite (Hfz c Hc E). assumption.
+      + assert (P : 0 < qsum (fun c => if fi_frozen c then 0 else qcl c (T c) - T c) items) by (rewrite <- HV; assumption).
+        apply qsum_pos_ex in P. destruct P as [c [Hc P]]. exists c. split; [assumption|].
+        destruct (fi_frozen c) eqn:E; [lra|]. split; [reflexivity|].
+        destruct (Hun c Hc E) as [_ [_ [_ [_ [Pp _]]]]]. apply (Pp Vp). exact P.
+  Qed.
+
+  (* total violation negative: max violators freeze; they sit at their hypothetical size *)
+  Lemma s_neg : V < 0 -> InvS M gaps (map step items) /\ (cnt (map step items) < cnt items)%nat.
+  Proof.
+    intro Vn. split.
+    - constructor.
+      + exact s_wf'.
+      + exact s_unf'.
+      + exact s_fro'.
+      + rewrite qsum_map.
+        assert (E : qsum (fun x => LoT (step x)) items == qsum LoT items).
+        { apply qsum_ext. intros c Hc. unfold LoT at 2. destruct (fi_frozen c) eqn:E.
+          - rewrite (Hfz c Hc E). unfold LoT. rewrite E. reflexivity.
+          - destruct (Hun c Hc E) as [S [_ [T1 [O1 [_ [P _]]]]]]. specialize (P Vn).
+            destruct (static_q _ _ S) as [_ [_ [Eh [_ [_ [_ [_ [_ Em]]]]]]]].
+            destruct (s_unf_facts c Hc E) as [Hh [B _]].
+            unfold LoT. destruct (fi_frozen (step c)) eqn:E'.
+            + rewrite O1. assert (L : qcl c (T c) - T c < 0) by (apply P; reflexivity).
+              assert (K : qcl c (qb c) == qcl c (T c)).
+              { unfold qcl in *. apply qclamp_max_stable; [apply HT1; assumption | lra]. }
+              rewrite Hh, K. reflexivity.
+            + rewrite Eh, Em. reflexivity. }
+        rewrite E. apply (is_hi _ _ _ Inv).
+      + right. rewrite qsum_map.
+        assert (L : qsum (fun x => DnT (step x)) items <= qsum MidT items).
+        { apply qsum_le. intros c Hc. unfold MidT. destruct (fi_frozen c) eqn:E.
+          - rewrite (Hfz c Hc E). unfold DnT. rewrite E. lra.
+          - destruct (Hun c Hc E) as [S [_ [T1 [O1 _]]]].
+            destruct (static_q _ _ S) as [_ [_ [Eh [_ [Emn [_ [_ [_ Em]]]]]]]].
+            destruct (s_unf_facts c Hc E) as [Hh [B [_ Z]]].
+            unfold DnT. rewrite (qw_static _ _ S). destruct (fi_frozen (step c)) eqn:E'; [rewrite O1; lra|].
+            rewrite Eh, Em, Emn. destruct (Qeq_bool (qw c) 0) eqn:G0.
+            + apply Qeq_bool_iff in G0. rewrite (Z G0). lra.
+            + pose proof (qclamp_ge_effmin (qmin c) (qmaxo c) (T c)). unfold qcl. lra. }
+        pose proof s_mid. lra.
+    - apply cnt_map_lt.
+      + intros c Hc E. rewrite (Hfz c Hc E). assumption.
+      + assert (P : qsum (fun c => if fi_frozen c then 0 else qcl c (T c) - T c) items < 0) by (rewrite <- HV; assumption).
+        apply qsum_neg_ex in P. destruct P as [c [Hc P]]. exists c. split; [assumption|].
+        destruct (fi_frozen c) eqn:E; [lra|]. split; [reflexivity|].
+        destruct (Hun c Hc E) as [_ [_ [_ [_ [_ [Pn _]]]]]]. apply (Pn Vn). exact P.
+  Qed.
+End ShrinkStep.
+
+Definition starget (free sss : XQ) (c : Item) : XQ :=
+  add (fi_basis c) (mul free (div (mul (fi_inner_basis c) (fi_shrink c)) sss)).
+Definition sstep (free sss V : XQ) : Item -> Item :=
+  on_unfrozen (fun c => freeze_by_violation V (fix_violation (set_target c (starget free sss c)))).
+
+Lemma loop_body_sdist k items free sss :
+  distribute k (free_space_of k items) items =
+    map (on_unfrozen (fun c => set_target c (starget free sss c))) items ->
+  loop_body k items =
+  map (sstep free sss (viol_sum (map (on_unfrozen (fun c => fix_violation (set_target c (starget free sss c)))) items))) items.
+Proof.
+  intro D. rewrite loop_body_unfold. cbv zeta. rewrite D.
+  rewrite (on_unfrozen_fuse fix_violation (fun c => set_target c (starget free sss c))) by (intro; reflexivity).
+  unfold sstep. apply on_unfrozen_fuse. intro c. reflexivity.
+Qed.
+
+Lemma sum_scaled_fin l : (forall c, In c l -> item_fin c) ->
+  finite (sum_scaled_shrink l) /\ val (sum_scaled_shrink l) == qsum (fun c => if fi_frozen c then 0 else qw c) l.
+Proof.
+  intro Hf. unfold sum_scaled_shrink.
+  destruct (fsum_fin (fun c : Item => mul (fi_inner_basis c) (fi_shrink c)) (filter unfrozen l)) as [A1 A2].
+  { intros c Hc. apply filter_In in Hc. destruct Hc as [Hc _]. specialize (Hf c Hc). unfold item_fin in Hf.
+    apply mul_fin; tauto. }
+  split; [assumption|]. rewrite A2, qsum_filter. apply qsum_ext. intros c Hc. specialize (Hf c Hc). unfold item_fin in Hf.
+  unfold unfrozen. destruct (fi_frozen c); [reflexivity|]. cbn [negb].
+  destruct (mul_fin (fi_inner_basis c) (fi_shrink c)) as [_ E]; [tauto|tauto|]. rewrite E. reflexivity.
+Qed.
+
+Record SCtx (k : LoopCtx XQ) (M gaps : Q) : Prop := {
+  sc_grow : lc_growing k = false;
+  sc_shrink : lc_shrinking k = true;
+  sc_M : exists Mx, lc_inner_main k = Some Mx /\ finite Mx /\ val Mx == M;
+  sc_gapf : finite (lc_total_gap k);
+  sc_gap : val (lc_total_gap k) == gaps;
+  sc_init : finite (lc_initial_free k);
+  sc_uff : finite (lc_used_flex_factor k)
+}.
+
+(* no distribution happens and every unfrozen item has a zero scaled factor: everything freezes where it is *)
+Lemma shrink_nodist k M gaps items : InvS M gaps items ->
+  distribute k (free_space_of k items) items = items ->
+  (forall c, In c items -> fi_frozen c = false -> qw c == 0) ->
+  PostS M gaps (loop_body k items).
+Proof.
+  intros I D Z.
+  assert (Ffin : forall c, In c items -> item_fin c) by (intros c Hc; apply (is_wf _ _ _ I c Hc)).
+  rewrite (loop_body_nodist k items D).
+  set (Vx := viol_sum (map (on_unfrozen fix_violation) items)).
+  assert (FT : forall c, In c items -> finite (fi_target c)) by (intros c Hc; specialize (Ffin c Hc); unfold item_fin in Ffin; tauto).
+  assert (ST : forall c, In c items -> fi_frozen c = false -> qcl c (qt c) == qh c).
+  { intros c Hc E. destruct (is_unf _ _ _ I c Hc E) as [_ S]. destruct (is_wf _ _ _ I c Hc) as [_ [_ [_ [_ P]]]].
+    unfold qcl in *. rewrite (qclamp_ext _ _ _ _ (S (Z c Hc E))). rewrite P. apply qclamp_idem. }
+  destruct (viol_sum_map fix_violation items) as [VF VV].
+  { intro c. reflexivity. }
+  { intros c Hc E. rewrite <- fix_violation_stale.
+    destruct (fix_violation_fields c _ (Ffin c Hc) (FT c Hc)) as [_ [F1 _]]. unfold item_fin in F1. tauto. }
+  fold Vx in VF, VV.
+  assert (V0 : val Vx == 0).
+  { rewrite VV. apply qsum_zero. intros c Hc. destruct (fi_frozen c) eqn:E; [reflexivity|].
+    rewrite <- fix_violation_stale.
+    destruct (fix_violation_fields c _ (Ffin c Hc) (FT c Hc)) as [_ [_ [_ [_ [V1 _]]]]]. rewrite V1.
+    fold (qt c). destruct (is_unf _ _ _ I c Hc E) as [_ S]. rewrite (ST c Hc E), (S (Z c Hc E)). ring. }
+  assert (NS : forall c, In c items -> fi_frozen c = false ->
+     static_eq c (nstep Vx c) /\ item_fin (nstep Vx c) /\ fi_frozen (nstep Vx c) = true /\
+     qot (nstep Vx c) == qt (nstep Vx c) + qm c).
+  { intros c Hc E. unfold nstep, on_unfrozen. rewrite E. rewrite <- fix_violation_stale.
+    destruct (step_fields Vx _ c VF (FT c Hc) (Ffin c Hc)) as [S [F1 [T1 [O1 [_ [_ P3]]]]]].
+    split; [assumption|]. split; [assumption|]. split; [apply P3; assumption|]. rewrite T1, O1. reflexivity. }
+  assert (NF' : forall c, In c items -> fi_frozen c = true -> nstep Vx c = c).
+  { intros c _ E. unfold nstep, on_unfrozen. rewrite E. reflexivity. }
+  constructor.
+  + intros c' Hc'. apply in_map_iff in Hc'. destruct Hc' as [c [<- Hc]]. destruct (fi_frozen c) eqn:E.
+    * rewrite (NF' c Hc E). assumption.
+    * apply (NS c Hc E).
+  + intros c' Hc'. apply in_map_iff in Hc'. destruct Hc' as [c [<- Hc]]. destruct (fi_frozen c) eqn:E.
+    * rewrite (NF' c Hc E). apply Ffin; assumption.
+    * apply (NS c Hc E).
+  + intros c' Hc'. apply in_map_iff in Hc'. destruct Hc' as [c [<- Hc]]. destruct (fi_frozen c) eqn:E.
+    * rewrite (NF' c Hc E). apply (is_fro _ _ _ I c Hc E).
+    * destruct (NS c Hc E) as [S [_ [_ O]]]. destruct (static_q _ _ S) as [_ [_ [_ [_ [_ [_ [_ [_ Em]]]]]]]].
+      rewrite Em. exact O.
+  + right. intros c' Hc' Hg'. apply in_map_iff in Hc'. destruct Hc' as [c [<- Hc]]. destruct (fi_frozen c) eqn:E.
+    * rewrite (NF' c Hc E) in *. destruct (is_dn _ _ _ I) as [A | U].
+      -- apply A; assumption.
+      -- exfalso. pose proof (is_hi _ _ _ I) as L.
+         assert (EQ : qsum DnT items == qsum LoT items).
+         { apply qsum_ext. intros d Hd. unfold DnT, LoT. destruct (fi_frozen d) eqn:Ed; [reflexivity|].
+           pose proof (Z d Hd Ed) as Zd. apply Qeq_bool_iff in Zd. rewrite Zd. reflexivity. }
+         lra.
+    * exfalso. destruct (NS c Hc E) as [S _]. rewrite (qw_static _ _ S) in Hg'. apply Hg'. apply Z; assumption.
+Qed.
+
+Lemma shrinking_body k M gaps items : SCtx k M gaps -> InvS M gaps items -> forallb fi_frozen items = false ->
+  PostS M gaps (loop_body k items) \/
+  (InvS M gaps (loop_body k items) /\ (cnt (loop_body k items) < cnt items)%nat).
+Proof.
+  intros K I NF. destruct K as [Kg Ks [Mx [KM [FM VM]]] Kgf Kgv Kif Kuf].
+  assert (Ffin : forall c, In c items -> item_fin c) by (intros c Hc; apply (is_wf _ _ _ I c Hc)).
+  assert (Fs : forall c, In c items -> finite (fi_shrink c)) by (intros c Hc; specialize (Ffin c Hc); unfold item_fin in Ffin; tauto).
+  destruct (sum_shrink_fin items Fs) as [SS1 SS2].
+  destruct (sum_scaled_fin items Ffin) as [SW1 SW2].
+  destruct (used_space_fin (lc_total_gap k) items Kgf Ffin) as [US1 US2].
+  set (S := qsum (fun c => if fi_frozen c then 0 else qs c) items) in *.
+  set (W := qsum (fun c => if fi_frozen c then 0 else qw c) items) in *.
+  assert (Snn : forall c, In c items -> 0 <= (if fi_frozen c then 0 else qs c)).
+  { intros c Hc. destruct (fi_frozen c); [lra|]. apply (is_wf _ _ _ I c Hc). }
+  assert (Wnn : forall c, In c items -> 0 <= (if fi_frozen c then 0 else qw c)).
+  { intros c Hc. destruct (fi_frozen c); [lra|]. destruct (is_wf _ _ _ I c Hc) as [_ [A [_ [B _]]]].
+    unfold qw. apply Qmult_le_0_compat; assumption. }
+  destruct (Qlt_le_dec 0 S) as [Sp | Sz].
+  - assert (S1 : 1 <= S).
+    { destruct (qsum_pos_ex _ _ Sp) as [c [Hc Pc]]. pose proof (qsum_ge_term _ _ c Snn Hc) as L. fold S in L.
+      revert Pc L. cbv beta. destruct (fi_frozen c); intros Pc L; [lra|].
+      destruct (is_wf _ _ _ I c Hc) as [_ [_ [[Z|O] _]]]; lra. }
+    set (used := used_space_of (lc_total_gap k) items) in *.
+    assert (FS : free_space_of k items = sub Mx used).
+    { unfold free_space_of. fold used. rewrite Kg, Ks, KM. cbn [andb maybe_sub_o unwrap_or].
+      assert (E : ltb (sum_shrink items) one = false) by (apply ltb_false; [assumption|exact fin_one|rewrite val_one, SS2; exact S1]).
+      rewrite E. reflexivity. }
+    destruct (sub_fin Mx used FM US1) as [FF FV].
+    set (free := sub Mx used) in *. set (sfs := sum_shrink items) in *. set (sss := sum_scaled_shrink items) in *.
+    assert (Uge : qsum LoT items <= qsum (fun c => if fi_frozen c then qot c else qb c + qm c) items).
+    { apply qsum_le. intros c Hc. unfold LoT. destruct (fi_frozen c) eqn:E; [lra|].
+      destruct (is_unf _ _ _ I c Hc E). lra. }
+    assert (Fneg : val free < 0). { rewrite FV, US2, VM, Kgv. pose proof (is_hi _ _ _ I). lra. }
+    assert (E1 : is_normal free = true) by (apply is_normal_fin; [assumption|lra]).
+    assert (E2 : gtb sfs zero = true).
+    { unfold gtb; apply ltb_true; [exact fin_zero|assumption|]. rewrite val_zero, SS2. lra. }
+    destruct (Qlt_le_dec 0 W) as [Wp | Wz].
+    + assert (SWp : 0 < val sss) by (rewrite SW2; assumption).
+      assert (D : distribute k (free_space_of k items) items =
+                  map (on_unfrozen (fun c => set_target c (starget free sss c))) items).
+      { unfold distribute. rewrite FS. fold sfs. fold sss.
+        assert (E3 : gtb sss zero = true) by (unfold gtb; apply ltb_true; [exact fin_zero|assumption|rewrite val_zero; assumption]).
+        rewrite E1, Kg, Ks, E2, E3. reflexivity. }
+      rewrite (loop_body_sdist k items free sss D).
+      set (hx := fun c : Item => fix_violation (set_target c (starget free sss c))).
+      set (Vx := viol_sum (map (on_unfrozen hx) items)).
+      assert (TX : forall c, In c items -> finite (starget free sss c) /\
+                    val (starget free sss c) = qb c + val free * (qw c / val sss)).
+      { intros c Hc. unfold starget. specialize (Ffin c Hc). unfold item_fin in Ffin.
+        destruct (mul_fin (fi_inner_basis c) (fi_shrink c)) as [W1 W2]; [tauto|tauto|].
+        destruct (div_fin (mul (fi_inner_basis c) (fi_shrink c)) sss) as [D1 D2]; [assumption|assumption|lra|].
+        destruct (mul_fin free _ FF D1) as [M1 M2].
+        destruct (add_fin (fi_basis c) (mul free (div (mul (fi_inner_basis c) (fi_shrink c)) sss))) as [A1 A2]; [tauto|assumption|].
+        split; [assumption|]. rewrite A2, M2, D2, W2. reflexivity. }
+      set (T := fun c : Item => qb c + val free * (qw c / val sss)).
+      destruct (viol_sum_map hx items) as [VF VV].
+      { intro c. reflexivity. }
+      { intros c Hc E. destruct (TX c Hc) as [X1 X2].
+        destruct (fix_violation_fields c _ (Ffin c Hc) X1) as [_ [F1 _]]. unfold hx. unfold item_fin in F1. tauto. }
+      fold Vx in VF, VV.
+      assert (HV : val Vx == qsum (fun c => if fi_frozen c then 0 else qcl c (T c) - T c) items).
+      { rewrite VV. apply qsum_ext. intros c Hc. destruct (fi_frozen c); [reflexivity|].
+        destruct (TX c Hc) as [X1 X2].
+        destruct (fix_violation_fields c _ (Ffin c Hc) X1) as [_ [_ [_ [_ [V1 _]]]]]. unfold hx. rewrite V1, X2. reflexivity. }
+      assert (HT1 : forall c, In c items -> fi_frozen c = false -> T c <= qb c).
+      { intros c Hc E. unfold T. pose proof (Wnn c Hc) as Wc. rewrite E in Wc.
+        pose proof (frac_nonpos (val free) (qw c) (val sss)). lra. }
+      assert (HT2 : forall c, In c items -> fi_frozen c = false -> qw c == 0 -> T c == qb c).
+      { intros c Hc E Z. unfold T. rewrite (frac_zero _ _ _ Z). lra. }
+      assert (HS : gaps + qsum (fun c => if fi_frozen c then qot c else T c + qm c) items == M).
+      { assert (EE : qsum (fun c => if fi_frozen c then qot c else T c + qm c) items ==
+                     qsum (fun c => if fi_frozen c then qot c else qb c + qm c) items +
+                     (val free / val sss) * qsum (fun c => if fi_frozen c then 0 else qw c) items).
+        { rewrite <- qsum_scale, <- qsum_add. apply qsum_ext. intros c _. unfold T. destruct (fi_frozen c); [ring|].
+          field. lra. }
+        rewrite EE. fold W. rewrite <- SW2.
+        assert (E4 : val free / val sss * val sss == val free) by (field; lra).
+        rewrite E4, FV, US2, VM, Kgv. ring. }
+      assert (Hfz : forall c, In c items -> fi_frozen c = true -> sstep free sss Vx c = c).
+      { intros c _ E. unfold sstep, on_unfrozen. rewrite E. reflexivity. }
+      assert (Hun : forall c, In c items -> fi_frozen c = false ->
+        static_eq c (sstep free sss Vx c) /\ item_fin (sstep free sss Vx c) /\ qt (sstep free sss Vx c) == qcl c (T c) /\
+        qot (sstep free sss Vx c) == qcl c (T c) + qm c /\
+        (0 < val Vx -> (fi_frozen (sstep free sss Vx c) = true <-> 0 < qcl c (T c) - T c)) /\
+        (val Vx < 0 -> (fi_frozen (sstep free sss Vx c) = true <-> qcl c (T c) - T c < 0)) /\
+        (val Vx == 0 -> fi_frozen (sstep free sss Vx c) = true)).
+      { intros c Hc E. destruct (TX c Hc) as [X1 X2].
+        destruct (step_fields Vx _ c VF X1 (Ffin c Hc)) as [St [F1 [T1 [O1 [P1 [P2 P3]]]]]].
+        unfold sstep, on_unfrozen. rewrite E. rewrite X2 in *. fold (T c) in *.
+        split; [assumption|]. split; [assumption|]. rewrite T1, O1. repeat split; try reflexivity; try assumption.
+        - apply P1; assumption. - apply P1; assumption. - apply P2; assumption. - apply P2; assumption. }
+      destruct (Qlt_le_dec 0 (val Vx)) as [Vp | Vle].
+      * right. exact (s_pos M gaps (val Vx) items _ T I HT1 HT2 HS HV Hfz Hun Vp).
+      * destruct (Qlt_le_dec (val Vx) 0) as [Vn | Vge].
+        -- right. exact (s_neg M gaps (val Vx) items _ T I HT1 HT2 HS HV Hfz Hun Vn).
+        -- left. apply (s_exact M gaps (val Vx) items _ T I HS HV Hfz Hun). lra.
+    + (* the sum of scaled shrink factors is zero: no distribution *)
+      left. apply shrink_nodist; [assumption| |].
+      * unfold distribute. rewrite FS. fold sfs. fold sss.
+        assert (E3 : gtb sss zero = false).
+        { unfold gtb. apply ltb_false; [exact fin_zero|assumption|]. rewrite val_zero, SW2. exact Wz. }
+        rewrite E1, Kg, Ks, E2, E3. reflexivity.
+      * intros c Hc E. pose proof (qsum_zero_terms _ _ Wnn Wz c Hc) as Zc. cbv beta in Zc. rewrite E in Zc. exact Zc.
+  - (* every unfrozen item has shrink factor 0 *)
+    assert (Z : forall c, In c items -> fi_frozen c = false -> qs c == 0).
+    { intros c Hc E. pose proof (qsum_zero_terms _ _ Snn Sz c Hc) as Zc. cbv beta in Zc. rewrite E in Zc. exact Zc. }
+    left. apply shrink_nodist; [assumption| |].
+    + unfold distribute.
+      assert (E2 : gtb (sum_shrink items) zero = false).
+      { unfold gtb. apply ltb_false; [exact fin_zero|assumption|]. rewrite val_zero, SS2. exact Sz. }
+      rewrite Kg, Ks, E2. cbn [andb]. destruct (is_normal _); reflexivity.
+    + intros c Hc E. unfold qw. rewrite (Z c Hc E). ring.
+Qed.
+
+Lemma flex_loop_shrinking k M gaps : SCtx k M gaps -> forall fuel items, InvS M gaps items -> (cnt items < fuel)%nat ->
+  exists res, flex_loop fuel k items = Some res /\ PostS M gaps res /\ Forall2 static_eq items res.
+Proof.
+  intros K fuel. induction fuel as [|f IH]; intros items I Hc; [lia|].
+  destruct (forallb fi_frozen items) eqn:E.
+  - exists items. split; [apply flex_loop_done; assumption|]. split; [|apply Forall2_static_refl].
+    apply invS_all_frozen; [assumption|]. apply forallb_frozen_true. assumption.
+  - pose proof (cnt_pos _ E) as Cp. simpl. rewrite E.
+    destruct (shrinking_body k M gaps items K I E) as [P | [I' Hlt]].
+    + destruct f as [|f']; [lia|]. exists (loop_body k items).
+      split; [|split; [assumption | apply loop_body_static]].
+      apply flex_loop_done. apply forallb_forall. intros c Hin. apply (ps_frozen _ _ _ P c Hin).
+    + destruct (IH (loop_body k items) I') as [res [R1 [R2 R3]]]; [lia|].
+      exists res. split; [assumption|]. split; [assumption|].
+      exact (Forall2_static_trans _ _ _ (loop_body_static k items) R3).
+Qed.
